@@ -1,11 +1,12 @@
 ------------------------------ MODULE SerialGen ------------------------------
-(* R2 for C08: connections x messages x arrival pattern x placement of one held handler. *)
+(* R2 for C08: connections x messages x arrival pattern x placement of one held handler;
+   via: accepted by Server.Serve / diam.NewConn on an in-memory transport / diam.Dial over loopback TCP. *)
 EXTENDS Integers, Sequences, TLC, Json
 CONSTANTS MaxConns, MaxMsgs
 VARIABLE s
 \* flavour: the messages are requests, answers, or alternate
 Init == s \in {[conns |-> k, msgs |-> m, pattern |-> p, via |-> v, holdc |-> hc, holdi |-> hi, flavour |-> fl] :
-                 k \in 1..MaxConns, m \in 2..MaxMsgs, p \in {"burst", "bytes", "interleaved"}, v \in {"server", "dial"},
+                 k \in 1..MaxConns, m \in 2..MaxMsgs, p \in {"burst", "bytes", "interleaved"}, v \in {"server", "dial", "tcp"},
                  hc \in 0..MaxConns, hi \in 0..MaxMsgs, fl \in {"req", "ans", "mixed"}}
 Next == UNCHANGED s
 Canon == /\ s.holdc <= s.conns /\ s.holdi <= s.msgs /\ (s.holdc = 0 <=> s.holdi = 0)
